@@ -32,6 +32,10 @@ def bulk(cq, ct):
     return {"name": "S-packed:bulk-vs-single", Q: ["bulk", "--cases", str(cq)], T: ["bulk", "--cases", str(ct), "--size", "40"], "seeds_t": 4}
 
 
+def xver(cq, ct):
+    return {"name": "S-enc/S-dec:cross-version families", Q: ["xver", "--cases", str(cq)], T: ["xver", "--cases", str(ct), "--size", "30"], "seeds_t": 4}
+
+
 def files(cq, ct):
     return {"name": "S-container:files", Q: ["files", "--cases", str(cq)], T: ["files", "--cases", str(ct), "--size", "30"], "seeds_t": 3}
 
@@ -52,6 +56,18 @@ PROPS = {
                    "tables_error_kinds", "tables_enum_tag_rule", "tables_schema_tags", "tables_limits"],
         "suites": [codec(8, 40), files(2, 8)],
         "oracle": ["C02"],
+    },
+    "C03": {
+        "module": "Sfv.Props.C03",
+        "tables": ["tables_prim_widths"],
+        "suites": [xver(6, 40), codec(4, 20, tag="ignore"), codec(3, 15, filt="Ver"), codec(3, 15, filt="Rem"), codec(3, 15, filt="As")],
+        "oracle": ["C03"],
+    },
+    "C18": {
+        "module": "Sfv.Props.C18",
+        "tables": ["tables_prim_widths"],
+        "suites": [xver(6, 40), codec(3, 15, filt="Fam"), codec(3, 15, filt="Ver"), PACKED],
+        "oracle": ["C18"],
     },
     "C04": {
         "module": "Sfv.Props.C04",
